@@ -3,6 +3,7 @@ package main
 import (
 	"fmt"
 	"go/token"
+	"go/types"
 	"strconv"
 	"strings"
 
@@ -120,7 +121,35 @@ func registerStringIntrinsics(reg func(string, intrinsicFn)) {
 			return notHandled
 		})
 	}
-	un("TrimSpace", strings.TrimSpace)
+	reg("strings.TrimSpace", func(w *World, th *Thread, fn *ssa.Function, args []Value) Value {
+		if ss, ok := allConcStr(args); ok {
+			return strings.TrimSpace(ss[0])
+		}
+		b, ok := toBStr(args[0])
+		if !ok {
+			panic(w.unsupported("strings.TrimSpace on symbolic-length string"))
+		}
+		// ASCII white space only; a byte >= 0x80 at either end would need UTF-8 decoding
+		isSpace := func(c Value) bool {
+			if w.branch(w.binop(token.GEQ, types.Typ[types.Uint8], c, int64(0x80))) {
+				panic(w.unsupported("strings.TrimSpace: non-ASCII byte at the edge of a symbolic string"))
+			}
+			for _, sp := range []int64{' ', '\t', '\n', '\v', '\f', '\r'} {
+				if w.branch(w.intEq(c, sp, 8)) {
+					return true
+				}
+			}
+			return false
+		}
+		lo, hi := 0, len(b)
+		for lo < hi && isSpace(b[lo]) {
+			lo++
+		}
+		for hi > lo && isSpace(b[hi-1]) {
+			hi--
+		}
+		return normStr(BStr(b[lo:hi:hi]))
+	})
 	un("ToLower", strings.ToLower)
 	un("ToUpper", strings.ToUpper)
 	un("Title", strings.Title)
@@ -312,6 +341,9 @@ func registerStringIntrinsics(reg func(string, intrinsicFn)) {
 	})
 	reg("(*strings.Builder).Grow", func(w *World, th *Thread, fn *ssa.Function, args []Value) Value { return nil })
 
+	ident := func(w *World, th *Thread, fn *ssa.Function, args []Value) Value { return args[0] }
+	reg("internal/stringslite.Clone", ident)
+	reg("strings.Clone", ident)
 	// low-level helpers implemented in assembly
 	reg("internal/bytealg.IndexByteString", func(w *World, th *Thread, fn *ssa.Function, args []Value) Value {
 		b, ok := toBStr(args[0])
